@@ -116,11 +116,12 @@ EVENTS = {
     # post-selected measurements (deterministic): projection on a coherent state, measured mode reset to vacuum
     "MHet(.3-.5j)": (lambda c: ops.MeasureHeterodyne(select=0.3 - 0.5j), 1, "measure", G),
     "MHet(0)": (lambda c: ops.MeasureHeterodyne(select=0.0), 1, "measure", G),
+    "MS(.3,.2,1.2,.8)": (lambda c: ops.MSgate(0.3, 0.2, 1.2, 0.8, avg=True), 1, "channel", ("bosonic",)),
     "PC(.8e^.3i)": (lambda c: ops.PassiveChannel(np.array([[0.8 * np.exp(0.3j)]])), 1, "channel", ("gaussian",)),
 }
 DAGGERABLE = ["D(.3,.4)", "S(.25,.3)", "R(.7)", "K(.3)", "V(.1)", "X(.3)", "P(.3)", "BS(.5,.3)", "BS(pi/4,pi/2)", "MZ(.4,.9)", "S2(.2,.5)", "CK(.4)", "CX(.3)", "CZ(.2)"]
 # reduced alphabets for the deepest level
-CORE = ["Coh(.3,.5)", "Sq(.25,.4)", "Th(.3)", "D(.3,.4)", "S(.25,.3)", "R(.7)", "BS(.5,.3)", "BS(.5,.3).H", "MZ(.4,.9)", "MZ(.4,.9).H", "S2(.2,.5)", "S2(.2,.5).H", "Loss(.6)", "TLoss(.6,.4)", "K(.3)", "CK(.4)", "Fock(1)", "Ket2", "CX(.3)", "MHet(.3-.5j)", "Gauss2"]
+CORE = ["Coh(.3,.5)", "Sq(.25,.4)", "Th(.3)", "D(.3,.4)", "S(.25,.3)", "R(.7)", "BS(.5,.3)", "BS(.5,.3).H", "MZ(.4,.9)", "MZ(.4,.9).H", "S2(.2,.5)", "S2(.2,.5).H", "Loss(.6)", "TLoss(.6,.4)", "K(.3)", "CK(.4)", "Fock(1)", "Ket2", "CX(.3)", "MHet(.3-.5j)", "Gauss2", "MS(.3,.2,1.2,.8)"]
 
 
 def make_op(label, c):
@@ -291,7 +292,7 @@ def _red_fock(rho, modes, n, c):
     return fr.FState(n, c, rho).reduced(modes)
 
 
-def oracle_c05(kind, n, c, label, op, modes, before, after):
+def oracle_c05(kind, n, c, label, op, modes, before, after, ref_loss=None):
     """spectators untouched; prepared block documented and uncorrelated (differential on implementation data)"""
     out = []
     rest = [m for m in range(n) if m not in modes]
@@ -315,7 +316,9 @@ def oracle_c05(kind, n, c, label, op, modes, before, after):
                 if d > 1e-9:
                     out.append(("prep-product", f"state after preparation differs from rest (x) documented state by {d:.3g}"))
             else:
-                slack = 1e-10 + max(0.0, tb - ta)
+                # what may leak into the spectators is the norm that TRUNCATION removes - the loss of the truncated-operator
+                # reference for this very transition - not whatever norm the implementation happens to lose
+                slack = 1e-10 + (max(0.0, tb - ta) if ref_loss is None else max(0.0, ref_loss) + 1e-9)
                 d = _maxabs(ra - rb)
                 if d > slack:
                     out.append(("spectator", f"marginal of modes {rest} changed by {d:.3g} (allowed by truncation loss: {slack:.3g})"))
@@ -523,7 +526,7 @@ def expand(task):
             if prop == "C01":
                 bad = oracle_c01(kind, n, c, ref, obs)
             elif prop == "C05":
-                bad = oracle_c05(kind, n, c, lab, op, modes, obs0, obs)
+                bad = oracle_c05(kind, n, c, lab, op, modes, obs0, obs, (ref0.trace() - ref.trace()) if family(kind) == "fock" else None)
             else:
                 bad = oracle_c07(kind, n, c, lab, op, modes, obs0, obs, ref0, ref)
             # the search graph itself needs implementation == reference, whatever property is judged
@@ -633,7 +636,7 @@ def replay_case(prop, case):
     if prop == "C01":
         bad = oracle_c01(kind, n, c, ref, obs)
     elif prop == "C05":
-        bad = oracle_c05(kind, n, c, lab, op, modes, obs0, obs)
+        bad = oracle_c05(kind, n, c, lab, op, modes, obs0, obs, (ref0.trace() - ref.trace()) if family(kind) == "fock" else None)
     else:
         bad = oracle_c07(kind, n, c, lab, op, modes, obs0, obs, ref0, ref)
     arr = "desc" if (len(modes) == 2 and modes[0] > modes[1]) else "asc"
